@@ -58,18 +58,18 @@ def jstr(s):
 def gen_int(rng, kind, valid_pool):
     lo, hi = RANGE[kind]
     r = rng.random()
-    if r < 0.80:
+    if r < 0.93:
         return rng.choice(valid_pool)
-    if r < 0.90:
+    if r < 0.988:
         return rng.choice([lo, hi, hi - 1, lo + 1, 0, 1])
     return rng.choice([lo - 1, hi + 1, -1, 2 ** 64, -2 ** 63 - 1, 2 ** 31, 2 ** 32])      # may be out of range: whole payload rejected
 
 
 def gen_float(rng, allow_bad=True):
     r = rng.random()
-    if r < 0.86:
+    if r < 0.90:
         return rng.choice(FLOATS)
-    if r < 0.97 or not allow_bad:
+    if r < 0.99 or not allow_bad:
         return rng.choice(NEG_FLOATS)
     return rng.choice(BAD_FLOATS)
 
@@ -153,7 +153,7 @@ def encode_obj(rng, v, plain=False):
             elif r < 0.05 and k != "specificItems":
                 out.append(f'"{k}":{t}')
                 out.append(f'"{k}":{t}')                               # duplicate key (later wins)
-            elif r < 0.065:
+            elif r < 0.058:
                 out.append(f'"{k}":' + rng.choice(['"str"', "true", "[]", "{}", "1.5", '"1"']) if k != "specificItems" else f'"{k}":{{}}')   # wrong type (mostly)
             else:
                 out.append(f'"{k}":{t}')
